@@ -136,11 +136,11 @@ type dmemT struct {
 	disp              int64
 }
 type decoded struct {
-	text   string
-	regs   []dreg
-	mem    *dmemT
-	imm    []int64
-	isMov  bool
+	text  string
+	regs  []dreg
+	mem   *dmemT
+	imm   []int64
+	isMov bool
 }
 
 func fromX86asm(d x86asm.Inst) decoded {
@@ -469,39 +469,42 @@ func c05(c *Ctx) {
 		names = append(names, n)
 	}
 	sort.Strings(names)
-	every := 8
+	every, reps := 1, 1
 	if c.Thorough() {
-		every = 1
+		reps = 3 // three operand choices per documented form
 	}
 	for k, name := range names {
 		if k%every != int(c.Seed)%every {
 			continue
 		}
 		ci := ctors[name]
-		for _, df := range ci.Doc {
-			var ops []operand.Op
-			okf := true
-			for _, tn := range df[1:] {
-				ss := physSamples(strings.ToUpper(tn), rng)
-				if len(ss) == 0 {
-					okf = false
-					break
-				}
-				ops = append(ops, Pick(rng, ss))
-			}
-			if !okf {
-				continue
-			}
-			i, err, _ := x86.VerifBuild(opcIndexOf[ci.Opcode], ci.Suffixes, ops)
-			for try := 0; try < 6 && err == nil && i != nil && !isEvex(i) && hasHiVec(i); try++ {
-				for k, tn := range df[1:] {
-					if up := strings.ToUpper(tn); up == "XMM" || up == "YMM" || strings.HasPrefix(up, "VM") {
-						ops[k] = Pick(rng, physSamples(up, rng))
+		for _, df0 := range ci.Doc {
+			for rep := 0; rep < reps; rep++ {
+				df := df0
+				var ops []operand.Op
+				okf := true
+				for _, tn := range df[1:] {
+					ss := physSamples(strings.ToUpper(tn), rng)
+					if len(ss) == 0 {
+						okf = false
+						break
 					}
+					ops = append(ops, Pick(rng, ss))
 				}
-				i, err, _ = x86.VerifBuild(opcIndexOf[ci.Opcode], ci.Suffixes, ops)
+				if !okf {
+					continue
+				}
+				i, err, _ := x86.VerifBuild(opcIndexOf[ci.Opcode], ci.Suffixes, ops)
+				for try := 0; try < 6 && err == nil && i != nil && !isEvex(i) && hasHiVec(i); try++ {
+					for k, tn := range df[1:] {
+						if up := strings.ToUpper(tn); up == "XMM" || up == "YMM" || strings.HasPrefix(up, "VM") {
+							ops[k] = Pick(rng, physSamples(up, rng))
+						}
+					}
+					i, err, _ = x86.VerifBuild(opcIndexOf[ci.Opcode], ci.Suffixes, ops)
+				}
+				add(i, err)
 			}
-			add(i, err)
 		}
 	}
 	for k := range insts {
@@ -749,7 +752,7 @@ func c05(c *Ctx) {
 	o.Stage("Render.v")
 	o.ExpectEmpty("Render.v", "R_render_mismatch", "mismatch", "model of operand rendering (register names, memory references, constants) vs Op.Asm()")
 	o.ExpectEmpty("Render.v", "R_imm_violation", "violation", "a printed constant does not denote the constant's bytes when read as the assembler reads integer literals")
-	o.Plan.Rule = "instruction instances built through the real constructors: one per documented form of every 8th constructor (all in thorough) with physical operands; every register view of every class through plain moves (incl. REX-only, high-byte, X16-31, K0-7; as base and index); boundary immediates of each signedness/width on 8/16/32/64-bit operations; addressing shapes (SP/BP/R12/R13 bases, disp8/disp32 boundaries, every scale incl. 3, narrow base registers). Each is printed with printer.NewGoAsm, assembled with `go tool asm`, dumped and decoded with x/arch x86asm (legacy/REX encodings) and its explicit operands compared; non-trivial = has operands; distinct by instruction text"
+	o.Plan.Rule = "instruction instances built through the real constructors: one per documented form of every constructor (three operand choices per form in thorough) with physical operands; every register view of every class through plain moves (incl. REX-only, high-byte, X16-31, K0-7; as base and index); boundary immediates of each signedness/width on 8/16/32/64-bit operations; addressing shapes (SP/BP/R12/R13 bases, disp8/disp32 boundaries, every scale incl. 3, narrow base registers). Each is printed with printer.NewGoAsm, assembled with `go tool asm`, dumped and decoded with x/arch x86asm (legacy/REX encodings) and its explicit operands compared; non-trivial = has operands; distinct by instruction text"
 	o.Plan.Stats["instances"] = len(insts)
 	o.Plan.EnvValidation["assembled"] = nAsm
 	o.Plan.EnvValidation["rejected_by_assembler"] = nRej
